@@ -44,6 +44,10 @@ func backendMisbehave(w http.ResponseWriter, r *http.Request, tok string) bool {
 	switch kind {
 	case "be-close":
 		// close before sending anything
+	case "be-oddstatus":
+		// a three-digit status outside 100..999 semantics: accepted by net/http clients, refused by its servers
+		conn.Write([]byte("HTTP/1.1 042 Odd\r\nContent-Length: 2\r\nX-Token: " + tok + "\r\n\r\nok"))
+		time.Sleep(20 * time.Millisecond)
 	case "be-garbage":
 		conn.Write([]byte("\x00\x01garbage that is not HTTP\r\n\r\n"))
 	case "be-reset":
@@ -225,7 +229,7 @@ type fetchReply struct {
 func relayFaults(a *Args) {
 	res := a.Res
 	rng := hx.Rand("relay-faults")
-	kinds := []string{"be-close", "be-garbage", "be-reset", "be-short", "fetch-500", "fetch-404", "fetch-garbled", "fetch-nonhttp", "fetch-reset",
+	kinds := []string{"be-close", "be-oddstatus", "be-garbage", "be-reset", "be-short", "fetch-500", "fetch-404", "fetch-garbled", "fetch-nonhttp", "fetch-reset",
 		"post-reject", "post-garble", "post-reset", "shim-input", "backend-down"}
 	positions := []int{2}
 	if hx.Thorough() {
